@@ -1,5 +1,5 @@
 """C12 - Summary tables are exact group-bys of their source."""
-from vlib import histories
+from vlib import histories, invariants, snapshot
 
 LEVEL = 'exploration'
 RULE = ('seeded histories with summary tables over Text/Int/Choice/Bool/Date/Ref/ChoiceList/RefList group-by columns (also '
@@ -7,25 +7,95 @@ RULE = ('seeded histories with summary tables over Text/Int/Choice/Bool/Date/Ref
         'type changes of source columns, RenameChoices, undo/redo; after each successful bundle every summary table is '
         'compared with a group-by computed from the source snapshot as the statement says. A case = one bundle; non-trivial = '
         'the document has a summary table with >= 1 row and the bundle changed a cell; distinct by (user-action kinds, stored shape).')
-ASSUMPTIONS = ['group-by values that are formula errors put the source row outside the statement',
-               'the group column is never renamed / retyped / removed by the workload',
-               'group-by columns never mix values that Python hashes equal but are of different types (1, 1.0, True)']
-REQUIRED = {'C12.checked': {'quick': 1500, 'thorough': 30000}}
+ASSUMPTIONS = ['a summary table one of whose group-by source cells holds a formula error is not judged (rows with error keys are '
+               'outside the statement)',
+               'a Date cell is keyed by the calendar day it denotes (any timestamp within the day is the same key)',
+               'a summary table whose group-by columns hold both booleans and the numbers 0/1 is not judged (the statement does '
+               'not say whether True and 1 are one key)',
+               'the group column is never renamed / retyped / removed by the workload; a table whose group column is no longer '
+               'the engine\'s group formula is not judged']
+REQUIRED = {'C12.checked': {'quick': 1500, 'thorough': 12000}, 'bundles_with_summary_rows': {'quick': 150, 'thorough': 2000}}
 
 WEIGHTS = {'create_summary': 9, 'update_summary': 4, 'detach_summary': 0.6, 'add_records': 18, 'update_records': 22, 'remove_records': 9,
            'rename_column': 2.5, 'modify_type': 2.5, 'rename_choices': 3, 'add_formula_column': 3, 'modify_formula': 1.5,
-           'add_data_column': 3, 'add_ref_column': 3, 'remove_column': 2, 'remove_table': 0.4, 'rename_table': 1, 'invalid': 0.6,
+           'add_data_column': 3, 'add_ref_column': 5, 'remove_column': 2, 'remove_table': 0.4, 'rename_table': 1, 'invalid': 0.6,
            'remove_section': 1, 'remove_view': 0.5, 'add_view': 0.5, 'create_section': 0.3, 'duplicate_table': 0.4, 'to_formula': 0.6,
            'to_data': 0.6, 'add_trigger_column': 0.5, 'modify_recalc': 0.2}
 TYPES = ['Int', 'Text', 'Bool', 'Choice', 'ChoiceList', 'Date', 'Numeric']
 
+KNOWN_NEG = 'negative_ref_key_without_summary_row'
+KNOWN_OPT = 'groupby_column_named_like_lookup_option'
+
+
 def plan(tier, seed):
-  n, steps = (16, 50) if tier == 'quick' else (160, 90)
-  return [{'hseed': seed * 100003 + 12000 + i, 'steps': steps} for i in range(n)]
+  n, steps = (16, 50) if tier == 'quick' else (64, 90)
+  return [{'witness': 'negative_ref_key'}, {'witness': 'groupby_named_order_by'}] + \
+         [{'hseed': seed * 100003 + 12000 + i, 'steps': steps} for i in range(n)]
+
+
+def witness_negative_ref_key(acc):
+  """Open finding: T.B (Ref:U) holds the alt text '-2.25'; RenameTable U V converts the column through
+  Int and back, which leaves the reference -2 in the cell; a summary of T by B then has no row for that
+  source record (adding the summary row fails: -2 is taken for a temporary row id)."""
+  from vlib.client import EngineProc
+  with EngineProc() as p:
+    p.init_doc()
+    p.apply([['AddTable', 'U', [{'id': 'X', 'type': 'Int', 'isFormula': False}]]])
+    p.apply([['BulkAddRecord', 'U', [None, None], {'X': [1, 2]}]])
+    p.apply([['AddTable', 'T', [{'id': 'B', 'type': 'Ref:U', 'isFormula': False}]]])
+    p.apply([['BulkAddRecord', 'T', [None, None, None], {'B': [1, '-2.25', 0]}]])
+    p.apply([['RenameTable', 'U', 'V']])
+    p.apply([['CreateViewSection', 2, 0, 'record', [4], None]])
+    acc.count('witness_runs')
+    S = snapshot.take(p)
+    if S['T'][1]['B'] != [1.0, -2.0, 0.0]:
+      return     # the rename no longer produces the negative reference: nothing to show
+    for mech, msg in invariants.c12(S)[0]:
+      acc.violation(mech, 'witness: T.B = [1, \'-2.25\', 0], RenameTable U V, summary of T by B: %s' % msg, {})
+
+
+def witness_groupby_named_order_by(acc):
+  """Open finding: a group-by column called order_by (or sort_by) is swallowed as the sorting option of the
+  lookup that finds or adds the summary row: no summary row is found or added for the source records."""
+  from vlib.client import EngineProc
+  with EngineProc() as p:
+    p.init_doc()
+    p.apply([['AddTable', 'T', [{'id': 'K', 'type': 'Text', 'isFormula': False}, {'id': 'order_by', 'type': 'Int', 'isFormula': False}]]])
+    p.apply([['BulkAddRecord', 'T', [None, None, None], {'K': ['a', 'a', 'b'], 'order_by': [1, 2, 1]}]])
+    p.apply([['CreateViewSection', 1, 0, 'record', [2, 3], None]])
+    acc.count('witness_runs')
+    for mech, msg in invariants.c12(snapshot.take(p))[0][:1]:
+      acc.violation(mech, 'witness: T(K, order_by) summarised by [K, order_by]: %s' % msg, {})
+
+
+class GroupBy(histories.Monitor):
+  def after_bundle(self, h, ctx):
+    acc = h.acc
+    if ctx.reply is None:
+      return
+    stats = {}
+    msgs, n = invariants.c12(ctx.S1, stats)
+    acc.count('C12.checked', n)
+    if n:
+      acc.count('bundles_with_summary_rows')
+    for k, v in stats.items():
+      acc.count(k, v)
+    shown = 0
+    for mech, msg in msgs:
+      if mech not in (KNOWN_NEG, KNOWN_OPT):
+        if shown >= 3:
+          continue
+        shown += 1
+      h.violation(mech, '%s after bundle %s' % (msg, histories.action_kinds(ctx.bundle)), {'bundle': ctx.bundle})
+    nh = histories.nontrivial_hash(ctx) if n else None
+    acc.case(nh, {'bundle': ctx.bundle} if nh else None)
+
 
 def run_shard(spec, acc):
+  if spec.get('witness'):
+    return globals()['witness_' + spec['witness']](acc)
   flags = {'bundle_multi': 0.25, 'max_tables': 3, 'max_rows': 9, 'wrong': 0.08, 'types': TYPES,
            'wrong_values': ['junk', '', None, 'x y', ['L', 'q', 'r'], ['L']]}
   undo = histories.UndoRedoMonitor(check_undo=False, check_redo=False, final_unwind=False, aux=True)
-  h = histories.History(acc, spec['hseed'], [histories.InvariantMonitor(['C12']), undo], spec['steps'], weights=WEIGHTS, flags=flags)
+  h = histories.History(acc, spec['hseed'], [GroupBy(), undo], spec['steps'], weights=WEIGHTS, flags=flags)
   h.run()
